@@ -248,6 +248,7 @@ func runOSConf(binary string) *osconfResult {
 		r.Binary = true
 		dir, _ := os.MkdirTemp("", "vh-osconf-bin-")
 		defer os.RemoveAll(dir)
+		again := time.Duration(0) // when set, the signal is sent a second time after this delay
 		run := func(name, yaml string, sig syscall.Signal, marker string) (int, bool) {
 			fn := filepath.Join(dir, name+".yaml")
 			os.WriteFile(fn, []byte(yaml), 0o644)
@@ -262,6 +263,10 @@ func runOSConf(binary string) *osconfResult {
 				waitFor(10*time.Second, func() bool { return len(pidsWithMarker(marker)) >= 3 })
 				time.Sleep(100 * time.Millisecond)
 				cmd.Process.Signal(sig)
+				if again > 0 {
+					time.Sleep(again)
+					cmd.Process.Signal(sig)
+				}
 			}
 			done := make(chan error, 1)
 			go func() { done <- cmd.Wait() }()
@@ -299,6 +304,15 @@ func runOSConf(binary string) *osconfResult {
 			code, clean := run("stop-command-timeout", y("  a:\n    command: \"sleep 60\"\n    shutdown:\n      command: \"sleep 45; true\"\n      timeout_seconds: 1\n  b:\n    command: \"sleep 60\"\n  c:\n    command: \"sleep 60\"\n"), syscall.SIGTERM, marker)
 			el := time.Since(t0)
 			r.check("binary-stop-command-timeout-kill", code != -101 && el < 30*time.Second, fmt.Sprintf("exit status %d after %v (stop command sleeps 45 s, time-out 1 s), no survivors=%v", code, el.Round(time.Millisecond), clean))
+		}
+		// an impatient second signal while the shutdown is still waiting for a process that ignores SIGTERM
+		// (killed after timeout_seconds): the supervisor finishes the shutdown, nothing survives
+		{
+			marker := fmt.Sprintf("vhT%d", os.Getpid())
+			again = 500 * time.Millisecond
+			code, clean := run("signal-twice", y("  a:\n    command: \"trap '' TERM; sleep 60 & wait\"\n    shutdown:\n      timeout_seconds: 2\n  b:\n    command: \"sleep 60\"\n"), syscall.SIGTERM, marker)
+			again = 0
+			r.check("binary-signal-twice-no-survivors", clean && code != -101, fmt.Sprintf("exit status %d, no survivors=%v", code, clean))
 		}
 		for _, sg := range []syscall.Signal{syscall.SIGTERM, syscall.SIGINT, syscall.SIGHUP} {
 			marker := fmt.Sprintf("vhS%d%d", os.Getpid(), int(sg))
